@@ -124,6 +124,13 @@ func ECVRFVerify(pk PublicKey, pi VRFProve, m []byte) (bool, error) {
 	if err != nil {
 		return false, err
 	}
+	// Gamma must lie in the prime-order subgroup: the lottery output is the raw
+	// encoding of Gamma, and Gamma plus a small-order point can satisfy the
+	// verification equation, which would give one key several outputs per message.
+	// An honest Gamma = x*H always has prime order (x is a multiple of the cofactor).
+	if !hasPrimeOrder(gamma) {
+		return false, ErrDecodeError
+	}
 	sScalar32 := new([32]byte)
 	edwards25519.ScReduce(sScalar32, sScalar)
 
@@ -407,6 +414,21 @@ func stringToPoint(point *edwards25519.ExtendedGroupElement, s [32]byte) bool {
 		return false
 	}
 	return true
+}
+
+// groupOrder is the order L of the prime-order subgroup, little endian.
+var groupOrder = [32]byte{0xed, 0xd3, 0xf5, 0x5c, 0x1a, 0x63, 0x12, 0x58, 0xd6, 0x9c, 0xf7, 0xa2, 0xde, 0xf9, 0xde, 0x14,
+	0, 0, 0, 0, 0, 0, 0, 0, 0, 0, 0, 0, 0, 0, 0, 0x10}
+
+// hasPrimeOrder reports whether L*p is the neutral element.
+func hasPrimeOrder(p *edwards25519.ExtendedGroupElement) bool {
+	lp := edwards25519.GeScalarMult(p, &groupOrder)
+	neutral := new(edwards25519.ExtendedGroupElement)
+	neutral.Zero()
+	var a, b [32]byte
+	lp.ToBytes(&a)
+	neutral.ToBytes(&b)
+	return a == b
 }
 
 func isCanonical(s [32]byte) byte {
